@@ -73,11 +73,12 @@ impl Timer {
     /// (taken from the property: `update()` may be called on a disabled source)
     open spec fn reregister_req(&self) -> bool { self.wf() }
     open spec fn reregister_ens(o: &Self, n: &Self, ok: bool) -> bool {
-        &&& ok && n.dl() == o.dl() && n.takes_part() == o.takes_part()
+        &&& n.dl() == o.dl() && n.takes_part() == o.takes_part()
         // C07 (from the property: "not invoked again until enable() succeeds"): a timer that does not take part in the loop
-        // -- it has been disabled -- is NOT armed by a re-registration (defect F17: update() armed it)
+        // -- it has been disabled -- is NOT armed by a re-registration (defect F17: update() armed it); what the call answers
+        // then is not the property's business
         &&& !o.takes_part() ==> n.reg_token() is None
-        &&& o.takes_part() ==> (n.reg_token() is Some <==> o.dl() is Some)
+        &&& o.takes_part() ==> ok && (n.reg_token() is Some <==> o.dl() is Some)
         &&& o.reg_counter() matches Some(c) ==> w_wheel_cancelled(c)
         &&& n.reg_token() is Some ==> (n.reg_counter() matches Some(c) && w_wheel_inserted(c, o.dl()->Some_0, n.reg_token()->Some_0))
     }
